@@ -134,6 +134,14 @@ pub fn scenario(ch: &mut Chooser, thorough: bool) -> Exec {
                     Ok(l) => {
                         st_l.borrow_mut().bind_results.push("ok".into());
                         listener = Some(Rc::new(l));
+                        // while it is live, a second bind of the same port through the other
+                        // kind of address (wildcard vs. localhost) must be turned down
+                        let other = if lo { any_ip } else { lo_ip };
+                        let r2 = match TcpListener::bind((other, 80)).await {
+                            Ok(_) => "ok".to_string(),
+                            Err(e) => errk(&e),
+                        };
+                        st_l.borrow_mut().bind_results.push(format!("second bind of the other kind: {r2}"));
                     }
                     Err(e) => {
                         st_l.borrow_mut().bind_results.push(errk(&e));
@@ -467,6 +475,12 @@ pub fn scenario(ch: &mut Chooser, thorough: bool) -> Exec {
         g.bind_results,
         g.counts
     ));
+    if let Some(b) = g.bind_results.iter().find(|b| b.starts_with("second bind") && !b.ends_with("AddrInUse")) {
+        violation = Some(Violation::new(
+            "second-bind",
+            format!("while the listener was bound to port 80, binding the same port through the other kind of address (wildcard / localhost) returned: {b}; the port is in use"),
+        ));
+    }
     if violation.is_none() {
         // (3) nobody hangs; refusal cases are ConnectionRefused
         for i in 0..nconn + 2 {
